@@ -77,6 +77,28 @@ CLAIMED = {
          'call that can rebuild the decoder; the flag has a single writer and no second copy. (Units-of-measure typing of the '
          'half-rate shift is added with the K7 engine.) Bit-identity with a linear half-rate decode is not decided.',
          'Trusted: clang 14 front end; call graph; K4 intervals.', 'DESIGN.md 4/C20'),
+ 'C09': ('symbolic evaluation of per-link table subscripts as linear forms of one link variable + K4 range analysis of the summing loops + control-dependence rule for link-0 shortcuts',
+         'Every subscript of offsets/dataoffsets/serialnos/vi/vc/pcmlengths in vorbisfile.c is proven to be a*L+b with the slot role of '
+         'its table; the totals sum over exactly [0,links); link 0\'s set-up is never used by shortcut where a link is selected and '
+         'the open-time scan never reads the (not yet meaningful) current link. That the bisection finds the right links and '
+         'lengths for a given file is not decided.',
+         'Trusted: clang 14 front end; exact evaluation of subscripts at L=0,1,2; the open path (_ov_open1/_open_seekable2) is a '
+         'stated exception for constant link-0 slots.', 'DESIGN.md 4/C09'),
+ 'C10': ('CFG path rules with history flags (clamp before consume/filter), call-graph rule (single decode path), K3 rule (no direct stores into decoder state)',
+         'Short reads commit exactly the returned count; the caller\'s length clamps the frame count before the filter callback and '
+         'before consumption, with one count variable throughout; all access modes run the same per-packet decode calls, none '
+         'control-dependent on seekability. These are necessary conditions; equality of PCM across schedules is not decided.',
+         'Trusted: clang 14 front end; K3 effect analysis.', 'DESIGN.md 4/C10'),
+ 'C15': ('K4 value-range analysis at call sites (validated arguments), path rules partitioned by path history (clear on failure), partitioned range analysis of the control freeze',
+         'At every set-up helper call the validated argument ranges are proven (rate > 0, channels in [1,255]); every failing one-step '
+         'init has cleared the info structure; every setter of vorbis_encode_ctl is reached only with set_in_stone == 0; the '
+         'template search never yields the table size as setting. Memory safety of per-block encoder DSP is not decided.',
+         'Trusted: clang 14 front end; K4 intervals.', 'DESIGN.md 4/C15'),
+ 'C17': ('K4 interval analysis of ov_read_filter partitioned by the signedness argument; control-dependence rules for byte order; link-consistency rule for the channel count',
+         'On all five packing paths every stored sample is proven to lie in exactly the range of its word (signed [-S,S-1], unsigned '
+         '[0,2S-1]); word/channels/samples guards and the frame clamp hold at every store; byte order follows the request; bytes '
+         'returned = frames consumed x frame size; the channel count is the current link\'s. Rounding to nearest is not decided.',
+         'Trusted: clang 14 front end; vorbis_ftoi returns an arbitrary int.', 'DESIGN.md 4/C17'),
 }
 
 NA = {
